@@ -9,7 +9,8 @@ RULE = ('(n_theta,n_z) x theta spline path (uniform cubic, general degrees 2/3/5
         'of a 3x5 block; data = constant, two dense vectors, and for selected configurations every unit impulse (full operator matrix); oracle = independent '
         'implementation of the stated formula (product-formula Lagrange weights on the floor-centred 6-point stencil, exact-rational theta interpolation '
         'matrices, periodic wrap in theta and z); identities: constants preserved, commutation with cyclic z-shift, integer displacement without twist is a '
-        'circular shift; an evaluation is one step() call compared at all nodes; non-trivial = non-zero displacement')
+        'circular shift; grid-level clause: gridStep (twice) on 6 (quick) / 30 (thorough) process grids of a tight torus (several cells per step, r dependent b_z) against '
+        'per-surface step() of a serial operator at the global (r, v) indices; an evaluation is one step() call compared at all nodes; non-trivial = non-zero displacement')
 ASSUMPTIONS = ['pgv.refspline theta interpolation', 'tolerance 1e-12 * ||A^-1||_inf * max|f|', 'linearity in f (checked by impulses + dense data)']
 
 SIZES = {'quick': [(4, 6), (5, 7), (8, 9)], 'thorough': [(4, 6), (5, 7), (8, 9), (4, 9), (8, 6), (5, 8)]}
@@ -29,10 +30,69 @@ def cases(tier, seed):
         if tier == 'quick' and dz != 0.5 and (sp[0] != 'cu' and (nq, nz) != (5, 7)):
             continue
         out.append({'nq': nq, 'nz': nz, 'space': list(sp), 'iota': iota, 'dz': dz, 'tier': tier, 'cost': nq * nz * 10})
+    # grid-level clause: gridStep advects every (r, v) surface of the local block with the shifts of ITS radius and velocity
+    grids = [[1, 1], [2, 1], [1, 2], [2, 2], [3, 2], [1, 3]] if tier == 'quick' else [[a, b] for a in range(1, 6) for b in range(1, 7) if a * b <= 12]
+    for g in grids:
+        out.append({'kind': 'grid', 'npts': [5, 6, 7, 6], 'grid': g, 'cost': 200 * g[0] * g[1]})
     return out
 
 
+def _grid_case(case):
+    import numpy as np
+    from pgv import sim
+    from checks import c05
+    MPI = sim.setup()
+    from pygyro.initialisation.setups import setupCylindricalGrid
+    from pygyro.model.layout import Layout
+    from pygyro.advection.advection import FluxSurfaceAdvection
+    npts = case['npts']
+    nprocs = case['grid']
+    dt = 2.0
+
+    def close(a, b):
+        return a.shape == b.shape and sim.maxrel(a, b) <= 1e-13
+
+    def fn(r):
+        comm = MPI.COMM_WORLD
+        viol = []
+        # tight torus: several z cells per step and a strongly r dependent b_z
+        f, c, t = setupCylindricalGrid(layout='flux_surface', npts=list(npts), comm=comm, iotaVal=0.8, eps=0.1, m=3, n=-2, vMin=-6.1,
+                                       **dict(c05.GEN, R0=3.0, zMax=2 * np.pi * 3.0))
+        eta = f.eta_grid
+        l = f.getLayout('flux_surface')
+        gi = sim.global_index_arrays(l)
+        f.getAllData()[:] *= 1 + 0.3 * np.sin(1.0 + gi[0] * 1.3 + gi[1] * 0.7 + gi[2] * 2.1 + gi[3] * 0.9)
+        spl = [f.getSpline(k) for k in range(4)]
+        adv = FluxSurfaceAdvection(eta, [spl[1], spl[2]], l, dt, c)
+        LS = Layout('flux_surface', [1, 1], [0, 3, 1, 2], eta, [0, 0])
+        advS = FluxSurfaceAdvection(eta, [spl[1], spl[2]], LS, dt, c)
+        n = 0
+        for rep in (1, 2):
+            before = f.getAllData().copy()
+            adv.gridStep(f)
+            ok = True
+            for i in range(before.shape[0]):
+                for j in range(before.shape[1]):
+                    e = before[i, j].copy()
+                    advS.step(e, int(l.starts[1]) + j, int(l.starts[0]) + i)
+                    ok = ok and close(f.getAllData()[i, j], e)
+                    n += 1
+            if not ok:
+                viol.append('grid-level:gridStep:surface-not-advected-with-the-shifts-of-its-own-radius-and-velocity')
+        return n, viol
+    res, _w = sim.run_world(nprocs, fn)
+    viols = {}
+    evals = 0
+    for rk, (n, vl) in enumerate(res):
+        evals += n
+        for v in vl:
+            viols.setdefault(v, {'sig': v, 'what': '%s on rank %d (npts %r process grid %r)' % (v, rk, npts, nprocs), 'detail': {}})
+    return {'evals': evals, 'nontrivial': evals, 'violations': list(viols.values()), 'stats': {}, 'sample': {'grid': nprocs, 'surfaces': evals}}
+
+
 def run_case(case):
+    if case.get('kind') == 'grid':
+        return _grid_case(case)
     import math
     import numpy as np
     from pgv import sim, ops, refspline
